@@ -32,6 +32,7 @@ var table = map[string]struct {
 	"C16": {"model_checking", checks.C16},
 	"C18": {"model_checking", checks.C18},
 	"C19": {"model_checking", checks.C19},
+	"C20": {"fault_enumeration", checks.C20},
 	"C11": {"model_checking", checks.C11},
 }
 
@@ -41,6 +42,10 @@ func main() {
 		os.Exit(2)
 	}
 	id, tier := os.Args[1], os.Args[2]
+	if id == "C20-worker" {
+		checks.C20Worker()
+		return
+	}
 	ent, ok := table[id]
 	if !ok {
 		fmt.Fprintln(os.Stderr, "unknown check", id)
